@@ -27,6 +27,7 @@ type Profile struct {
 	PFaults                        int
 	PNonPreemptible                int
 	PMinRuntime                    int
+	PDRA                           int // worlds with DRA device classes, slices and pod resource claims (0 = never)
 	PLimits                        int // queues carry limits
 	Actions                        [][]string
 	Deep                           bool // 3-level queue trees more likely
@@ -111,6 +112,13 @@ func GenWorld(t *rapid.T, pf Profile) *World {
 		w.Config.Pool = "pool-a"
 	}
 	genNodes(t, pf, w)
+	if chance(t, pf.PDRA, "worldHasDRA") {
+		for i := range w.Nodes {
+			if chance(t, 6, "nodeHasDRA") {
+				w.Nodes[i].DRA = map[string]int{DRAClass: pickInt(t, "draDevices", 1, 2, 2, 4)}
+			}
+		}
+	}
 	if w.Config.Pool != "" {
 		for i := range w.Nodes {
 			switch uniform(t, 4, "nodePoolLabel") {
@@ -131,6 +139,7 @@ func GenWorld(t *rapid.T, pf Profile) *World {
 		}
 	}
 	genGroups(t, pf, w)
+	assignClaimDevices(w)
 	if pf.Saturated {
 		Saturate(t, w, pf)
 	}
@@ -478,6 +487,13 @@ func genTemplate(t *rapid.T, pf Profile, w *World) Pod {
 	if chance(t, 1, "initContainer") {
 		p.InitCPU = pickInt(t, "initCpu", 100, 3000)
 	}
+	hasDRA := false
+	for _, n := range w.Nodes {
+		hasDRA = hasDRA || n.DRA[DRAClass] > 0
+	}
+	if hasDRA && chance(t, 5, "draClaim") {
+		p.Claims = []Claim{{Name: "nic", Class: DRAClass, Count: pickInt(t, "draCount", 1, 1, 2)}}
+	}
 	if chance(t, pf.PConstraints, "constrained") {
 		switch between(t, 0, 5, "constraintKind") {
 		case 0:
@@ -733,4 +749,44 @@ func Saturate(t *rapid.T, w *World, pf Profile) int {
 		}
 	}
 	return added
+}
+
+// DRAClass is the device class of the generated DRA devices (not a GPU class: GPU accounting is untouched).
+const DRAClass = "nic.example.com"
+
+// assignClaimDevices gives pods that already sit on a node the devices their claims hold: distinct devices of
+// the node's slice, first come first served; a placed pod for whose claim the node has no devices left loses
+// the claim (construction, no rejection). Pending pods keep their claims unallocated.
+func assignClaimDevices(w *World) {
+	next := map[string]int{}
+	have := map[string]int{}
+	for i := range w.Nodes {
+		have[w.Nodes[i].Name] = w.Nodes[i].DRA[DRAClass]
+	}
+	for gi := range w.Groups {
+		for pi := range w.Groups[gi].Pods {
+			p := &w.Groups[gi].Pods[pi]
+			if len(p.Claims) == 0 {
+				continue
+			}
+			cl := make([]Claim, len(p.Claims))
+			copy(cl, p.Claims)
+			p.Claims = cl
+			if p.Node == "" || p.State == Pending {
+				continue
+			}
+			for ci := range p.Claims {
+				c := &p.Claims[ci]
+				if next[p.Node]+c.Count > have[p.Node] {
+					p.Claims = nil
+					break
+				}
+				c.Devices = nil
+				for d := 0; d < c.Count; d++ {
+					c.Devices = append(c.Devices, next[p.Node])
+					next[p.Node]++
+				}
+			}
+		}
+	}
 }
